@@ -126,24 +126,49 @@ def _driver():
     return _drv
 
 
+class _Timeout(BaseException):   # BaseException: must pass through the package's own `except Exception` handlers
+    pass
+
+
+def _alarm(signum, frame):
+    raise _Timeout()
+
+
+def safe_pformat(obj, st, limit=1.5):
+    """pformat with a watchdog: a print that raises (incl. RecursionError) or does not finish within `limit` seconds is
+    reported as text 'EXC:...' — never crashes or hangs the harness"""
+    import signal
+    old = signal.signal(signal.SIGALRM, _alarm)
+    signal.setitimer(signal.ITIMER_REAL, limit)
+    try:
+        with warnings.catch_warnings():
+            warnings.simplefilter('ignore')
+            try:
+                return pp.pformat(obj, width=st[1], ribbon_width=st[2])
+            except _Timeout:
+                return 'EXC:does-not-terminate-within-%gs' % limit
+            except Exception as e:
+                return 'EXC:' + type(e).__name__
+    finally:
+        signal.setitimer(signal.ITIMER_REAL, 0)
+        signal.signal(signal.SIGALRM, old)
+
+
 def graph_chunk(specs):
     drv = _driver()
     mism, fails = [], []
     n = nt = 0
     prev = None
     for spec in specs:
+        if len(fails) >= 3:
+            break          # enough evidence from this chunk; do not pay the watchdog limit again and again
         objs = build_graph(spec)
         if objs is None:
             continue
         for st in ((4, 79, 71, None, 1000, 0), (4, 12, 12, None, 1000, 0)):
-            with warnings.catch_warnings():
-                warnings.simplefilter('ignore')
-                try:
-                    text = pp.pformat(objs[0], width=st[1], ribbon_width=st[2])
-                    # no residue: printing again, and printing the previous graph's root again, gives the same
-                    again = pp.pformat(objs[0], width=st[1], ribbon_width=st[2])
-                except RecursionError:
-                    text = again = 'RecursionError'
+            text = safe_pformat(objs[0], st)
+            # no residue: printing again, and printing the previous graph's root again, gives the same
+            again = safe_pformat(objs[0], st)
             n += 1
             g = drv.ask(graph_sx(spec, objs, 0, st))
             if g != DOCS.sx_str('ok', text):
@@ -155,10 +180,8 @@ def graph_chunk(specs):
                 bad = 'markers / brackets differ from the path-based reference: %s vs %s' % (observed_tokens(text, objs), reference_print(spec, 0))
             if prev is not None and not bad:
                 ptext, pobj, pst = prev
-                with warnings.catch_warnings():
-                    warnings.simplefilter('ignore')
-                    if pp.pformat(pobj, width=pst[1], ribbon_width=pst[2]) != ptext:
-                        bad = 'printing another value afterwards differs from its first print'
+                if safe_pformat(pobj, pst) != ptext:
+                    bad = 'printing another value afterwards differs from its first print'
             if bad and len(fails) < 3:
                 fails.append({'kind': 'cycle-handling', 'why': bad, 'graph': spec, 'settings': st, 'text': text[:400]})
             if 'Recursion' in text:
